@@ -170,11 +170,11 @@ CANCEL_LIMIT = 4000
 
 class SB:
     """symbolic boolean. z: z3 BoolRef; fe: env->bool; st/sf strict variants when decided T/F"""
-    __slots__ = ("z", "fe", "st", "sf", "atoms")
+    __slots__ = ("z", "fe", "st", "sf", "atoms", "structural")
     __array_ufunc__ = None
 
-    def __init__(self, z, fe, st=None, sf=None, atoms=frozenset()):
-        self.z, self.fe, self.st, self.sf, self.atoms = z, fe, st, sf, atoms
+    def __init__(self, z, fe, st=None, sf=None, atoms=frozenset(), structural=False):
+        self.z, self.fe, self.st, self.sf, self.atoms, self.structural = z, fe, st, sf, atoms, structural
 
     def __bool__(self):
         return ENGINE.decide(self)
@@ -186,7 +186,8 @@ class SB:
         if isinstance(o, bool):
             return self if o else False
         a, b = self, o
-        return SB(z3.And(a.z, b.z), lambda env: a.fe(env) and b.fe(env), atoms=a.atoms | b.atoms)
+        return SB(z3.And(a.z, b.z), lambda env: a.fe(env) and b.fe(env), atoms=a.atoms | b.atoms,
+                  structural=a.structural and b.structural)
 
     __rand__ = __and__
 
@@ -264,6 +265,18 @@ class SB:
 
     def __repr__(self):
         return f"SB({self.z})"
+
+
+def structural_eq(a: "SR", b: "SR") -> SB:
+    """a == b already holds by normal form (difference is the zero polynomial); package the division-free
+    identity  a.num * b.den == b.num * a.den  so that the solver can confirm it independently"""
+    lhs = poly_z3(a.n)
+    rhs = poly_z3(b.n)
+    if b.d:
+        lhs = lhs * poly_z3(_den_poly(b.d))
+    if a.d:
+        rhs = rhs * poly_z3(_den_poly(a.d))
+    return SB(lhs == rhs, lambda env: True, atoms=a.atomset() | b.atomset(), structural=True)
 
 
 def as_sb(o):
@@ -584,6 +597,10 @@ class SR:
                 r = sa._cmp(sb_, op)
                 return r
         dlt = a - b
+        if op in ("eq", "ne") and dlt.n and P.SQUARE_RULES and not dlt.is_const():
+            red = P.p_reduce(dlt.n)
+            if red is not dlt.n:
+                dlt = SR(red, dlt.d) if red else SR({}, {})
         if dlt.is_const():
             c = dlt.cval()
             return {"lt": c < 0, "le": c <= 0, "gt": c > 0, "ge": c >= 0, "eq": c == 0, "ne": c != 0}[op]
@@ -961,6 +978,8 @@ def sqrt(x) -> SR:
                              positive=pos, nonneg=True, deps=radc.atomset())
             v = SR.atom(a.idx)
             v.root = radc
+            if not radc.d:
+                P.SQUARE_RULES[a.idx] = radc.n
             # definition: v >= 0 and v^2 * den == num  (division free)
             lhs = a.z * a.z
             if radc.d:
